@@ -99,7 +99,7 @@ PROPS = {
     },
     "C02": {
         "test": "TestC02",
-        "lean_modules": ["Gittuf.Props.C02"],
+        "lean_modules": ["Gittuf.Props.C02", "Gittuf.Props.C02b"],
         "n": {"quick": 40, "thorough": 1000},
         "min_per_shard": 10,
         "rule": "chains of 1-5 policy states on a real repository; each successor is obtained from its predecessor by one of: valid bump, "
